@@ -81,7 +81,8 @@ class SimPatch(Patch):
         if fault == "redef":
             sess.fired["callback-redef"] += 1
             return sess.redef_text()
-        return render_patch(sess.world, self.pdesc, ctx, self.op_index, inv)
+        mids = sess.desc.get("marker_ids")
+        return render_patch(sess.world, self.pdesc, ctx, mids[self.op_index] if mids else self.op_index, inv)
 
 
 def render_patch(world, pdesc, ctx, op_index, inv):
@@ -449,11 +450,17 @@ def block_by_key(world, key):
 
 @contextlib.contextmanager
 def instrumented(sess):
-    """Observe engine steps by rebinding function objects (DESIGN 1.1)."""
+    """Observe engine steps by rebinding function objects (DESIGN 1.1).
+    The wrappers only observe: they never call the mutating accessors of the
+    caches."""
+    import gtirb_rewriting._modify.edit as ed
+
     orig_invoke = rw_mod.RewritingContext._invoke_patch
+    saved = {}
 
     def invoke(self, patch, actual_block, actual_offset, context, **kw):
         sess.cache_cfg = self._module.ir.cfg
+        sess.steps.append("invoke")
         res = orig_invoke(self, patch, actual_block, actual_offset, context, **kw)
         if isinstance(patch, SimPatch):
             cap = capture_result(res) if res is not None else None
@@ -466,13 +473,158 @@ def instrumented(sess):
                     "cap": cap,
                 }
             )
+            if res is not None and sess.armed == "C09":
+                check_assembled_referents(sess, self._module, res)
         return res
 
+    def wrap_step(mod, name, kind, check):
+        orig = getattr(mod, name)
+        saved[(mod, name)] = orig
+
+        def w(*a, **kw):
+            sess.steps.append(kind)
+            r = orig(*a, **kw)
+            if check and sess.armed == "C09":
+                check_caches(sess, a[0])
+            return r
+
+        setattr(mod, name, w)
+
     rw_mod.RewritingContext._invoke_patch = invoke
+    wrap_step(rw_mod, "insert", "insert", True)
+    wrap_step(rw_mod, "delete", "delete", True)
+    wrap_step(ed, "split_block", "split", False)
+    wrap_step(ed, "join_blocks", "join", False)
+    wrap_step(ed, "remove_block", "remove", False)
     try:
         yield
     finally:
         rw_mod.RewritingContext._invoke_patch = orig_invoke
+        for (mod, name), orig in saved.items():
+            setattr(mod, name, orig)
+
+
+def check_assembled_referents(sess, module, result):
+    """C09 (c): whatever the assembler resolved by reading the IR directly
+    is a live referent (the cache and Symbol.referent agree for it)."""
+    live = {b.uuid for b in module.byte_blocks} | {p.uuid for p in module.proxies}
+    own = {id(b) for s in result.sections.values() for b in s.blocks} | {id(p) for p in result.proxies}
+    for s in result.sections.values():
+        for off, e in s.symbolic_expressions.items():
+            for sym in e.symbols:
+                if sym.module is module:
+                    r = sym.referent
+                    if r is None and sym._payload is None:
+                        raise core.Violation("C09", "assembler-sees-stale-referent", {"symbol": sym.name, "what": "referent is None at assemble time"}, {"kind": "none"})
+                    if isinstance(r, gtirb.Block) and r.uuid not in live and id(r) not in own:
+                        raise core.Violation("C09", "assembler-sees-stale-referent", {"symbol": sym.name, "what": "referent is a block that left the module"}, {"kind": "dead"})
+    for e in result.cfg:
+        for n in (e.source, e.target):
+            if id(n) not in own and n.uuid not in live:
+                raise core.Violation("C09", "assembler-sees-stale-referent", {"what": "patch edge to a block that left the module"}, {"kind": "dead-edge"})
+
+
+def check_caches(sess, cache):
+    """C09 (b): after every engine step the answers given through the
+    rewrite caches agree with the IR itself (read-only walk)."""
+    m = cache.module
+    # block ordering == blocks of the section in (interval rank, offset) order
+    for sect in m.sections:
+        order = cache.block_ordering.get(sect)
+        if order is None:
+            continue
+        blocks_in_section = {b.uuid for b in sect.byte_blocks}
+        seq = _ordering_list(order)
+        if seq is None:
+            continue
+        if {b.uuid for b in seq} != blocks_in_section:
+            raise core.Violation(
+                "C09",
+                "ordering-cache",
+                {"section": sect.name, "only_in_cache": len({b.uuid for b in seq} - blocks_in_section), "only_in_ir": len(blocks_in_section - {b.uuid for b in seq})},
+                {"kind": "membership"},
+            )
+        # within one byte interval the cache order must follow offsets
+        last = {}
+        for b in seq:
+            bi = b.byte_interval
+            if bi is None:
+                raise core.Violation("C09", "ordering-cache", {"section": sect.name, "what": "cache lists a block without byte interval"}, {"kind": "dead"})
+            key = (b.offset, b.size != 0)
+            if bi.uuid in last and (b.offset < last[bi.uuid][0]):
+                raise core.Violation(
+                    "C09",
+                    "ordering-cache",
+                    {"section": sect.name, "what": "cache order contradicts offsets inside an interval", "chain": [(x.offset, x.size, block_kind(x)) for x in seq if x.byte_interval is bi]},
+                    {"kind": "order"},
+                )
+            last[bi.uuid] = key
+    # function of a block
+    fb = m.aux_data.get("functionBlocks")
+    if fb is not None:
+        inv = {}
+        for fu, bs in fb.data.items():
+            for b in bs:
+                inv[b.uuid] = fu
+        cached = {b.uuid: fu for b, fu in cache.functions_by_block.items()}
+        if inv != cached:
+            diff = set(inv.items()) ^ set(cached.items())
+            raise core.Violation("C09", "function-cache", {"differences": len(diff)}, {"kind": "diff"})
+    # return edges
+    rc = cache.return_cache
+    scan = {}
+    pscan = {}
+    for e in rc:
+        if e.label is not None and e.label.type == gtirb.Edge.Type.Return:
+            scan.setdefault(e.source.uuid, set()).add(e)
+            if isinstance(e.target, gtirb.ProxyBlock):
+                pscan.setdefault(e.source.uuid, set()).add(e)
+    got = {k.uuid: set(v) for k, v in rc._return_edges.items() if v}
+    pgot = {k.uuid: set(v) for k, v in rc._proxy_return_edges.items() if v}
+    if scan != got or pscan != pgot:
+        raise core.Violation("C09", "return-cache", {"what": "return-edge index differs from a scan of the CFG"}, {"kind": "index"})
+    # referents: every symbol resolves (directly or through the cache) to a
+    # block that is part of the module
+    ref = cache.reference_cache
+    live = {b.uuid for b in m.byte_blocks} | {p.uuid for p in m.proxies}
+    for sym in m.symbols:
+        if sym in ref._referents:
+            node = ref._referents[sym]
+            hops = 0
+            while not isinstance(node, gtirb.Block):
+                node = node.parent
+                hops += 1
+                if hops > 10000:
+                    raise core.Violation("C09", "reference-cache", {"symbol": sym.name, "what": "cycle in the reference tree"}, {"kind": "cycle"})
+            if sym.referent is not None:
+                raise core.Violation("C09", "reference-cache", {"symbol": sym.name, "what": "symbol has both a direct and an indirect referent"}, {"kind": "both"})
+            target = node
+        else:
+            target = sym.referent
+        if isinstance(target, gtirb.Block) and target.uuid not in live:
+            raise core.Violation("C09", "reference-cache", {"symbol": sym.name, "what": "resolves to a block that is not in the module"}, {"kind": "dead"})
+
+
+def _ordering_list(order):
+    """Read-only walk of a BlockOrdering (possibly several detached
+    chains); returns the blocks chain after chain."""
+    nodes = getattr(order, "_BlockOrdering__order", None)
+    if nodes is None:
+        return None
+    heads = [n for n in nodes.values() if n.prev is None]
+    out = []
+    seen = 0
+    for h in sorted(heads, key=lambda n: (n.value.byte_interval.uuid.int if n.value.byte_interval is not None else 0, n.value.offset)):
+        n = h
+        while n is not None:
+            out.append(n.value)
+            seen += 1
+            if seen > len(nodes) + 1:
+                raise core.Violation("C09", "ordering-cache", {"what": "cycle in the block ordering"}, {"kind": "cycle"})
+            n = n.next
+    if seen != len(nodes):
+        raise core.Violation("C09", "ordering-cache", {"what": "block ordering chains do not cover all entries"}, {"kind": "chains"})
+    return out
 
 
 def run_session(world, model, sdesc, armed, index, logger=None, gen_cb=None, check_shape=None):
@@ -563,7 +715,7 @@ def run_session(world, model, sdesc, armed, index, logger=None, gen_cb=None, che
             runner()
         except InjectedFault as e:
             sess.error = e
-        except (core.Rejected, core.Desync, core.HarnessError):
+        except (core.Rejected, core.Desync, core.HarnessError, core.Violation):
             raise
         except Exception as e:  # unexpected: reported by the armed oracle
             sess.error = e
